@@ -56,6 +56,9 @@ CHECKS.update({
 CHECKS['C19'] = ('model_checking', 'mirsym: Frame::from_reader over a fault-scheduling reader (forks on every short-read size / Interrupted placement), z3 equality with Frame::from_bytes per (path, schedule)',
                  'For every frame class (each has its own read/seek pattern) and every schedule with up to 1 (quick) / 2 (thorough) events placed anywhere in the call sequence, the solver proves frame and checksum equal to the slice decode for all byte values; counterexamples are replayed natively with the same schedule.', '§2 C19')
 
+CHECKS['C20'] = ('translation_validation', 'mirsym on two MIR dumps (std / alloc-only): same symbolic explorations, z3 equality of outputs for every pair of jointly feasible paths',
+                 'First half of the property only (serde half: see not_applicable note in DESIGN §3): decode + rendering for every path at lengths 7/14, get_position on two arbitrary reports, and one tracker step per frame class are compared between the two feature configurations; unsat = no input distinguishes the builds.', '§2 C20')
+
 NOT_APPLICABLE = [
     ('C16', 'socket I/O, read timeouts and stream segmentation are environment behaviour inline in main(); no unit a solver can execute'),
     ('C17', 'pty/raw-mode/TUI event histories through crossterm + ratatui and threads; outside Kani and the MIR executor'),
@@ -65,7 +68,6 @@ NOT_APPLICABLE = [
 PENDING = {
     'C05': 'check under construction (CPR, z3 QF_FP); not claimed yet',
     'C11': 'check under construction (Display templates); not claimed yet',
-    'C20': 'check under construction (alloc vs std MIR); not claimed yet',
 }
 
 
